@@ -107,6 +107,17 @@ def row_problems(row, rlab, qlab, sp, dp, su, maxd):
         tot += s.segmentScore
     if abs(tot - row.confidence) > 1e-6:
         bad.append(('confidence-not-sum-of-segments', 'sum %s confidence %s' % (tot, row.confidence)))
+    # "none is counted twice" also holds ACROSS the segments of one record: a pair kept by two segments is summed twice
+    seen_r, seen_q = {}, {}
+    for k, s in enumerate(row.segments):
+        for p in s.positions:
+            if is_pair(p):
+                if p.reference.siteId in seen_r and seen_r[p.reference.siteId] != k:
+                    bad.append(('reference-label-counted-in-two-segments', 'label %s in segments %s and %s' % (p.reference.siteId, seen_r[p.reference.siteId], k)))
+                if p.query.siteId in seen_q and seen_q[p.query.siteId] != k:
+                    bad.append(('query-label-counted-in-two-segments', 'label %s in segments %s and %s' % (p.query.siteId, seen_q[p.query.siteId], k)))
+                seen_r[p.reference.siteId] = k
+                seen_q[p.query.siteId] = k
     return bad, boundary, nseg, unp
 
 
@@ -186,7 +197,7 @@ class LadderA(core.Layer):
     def run_block(self, b, acc):
         for name, ref, q, peaks in self.cases[b * self.chunk:(b + 1) * self.chunk]:
             for tup in self.tuples:
-                for rev, qq in ((False, q), (True, sorted(q[-1] - p for p in q))):
+                for rev, qq in ((False, q), (True, sorted(q[-1] - p for p in q)), (True, q)):
                     acc.seq += 1
                     check_case(tup, ref, qq, peaks, rev, acc)
 
